@@ -90,6 +90,18 @@ pub fn evaluate_pair(case: &PairCase, run: &PairRun, focus: Focus) -> Outcome {
             break;
         }
     }
+    // a client's GOAWAY names the highest pushed stream it has processed: never below a pushed stream whose response the
+    // application had already been handed when the GOAWAY was written
+    for f in tap.frames.iter().filter(|f| f.from == Side::Client) {
+        if let Ok(crate::refmodel::wire::Frame::GoAway { last, .. }) = &f.frame {
+            let delivered = run.events.iter().filter(|e| e.side == Side::Client && e.step + 1 < f.t_w0).filter_map(|e| if let Api::RecvHead { kind: "response", stream, .. } = &e.api { if stream % 2 == 0 { Some(*stream) } else { None } } else { None }).max();
+            if let Some(d) = delivered {
+                if *last < d {
+                    out.fail("C15", "goaway/last-stream-id", "C15/client-goaway-last-stream-id-below-delivered-push", format!("client GOAWAY (frame #{}) carries last-stream-id {} although the response of pushed stream {} had been handed to the application before", f.idx, last, d));
+                }
+            }
+        }
+    }
     let app_pending = run.unfinished.iter().any(|(_, g)| matches!(g, Group::ClientApp | Group::ServerApp));
     let conn_err = run.events.iter().any(|e| matches!(&e.api, Api::ConnDone { result: Err(_) }));
     let settled = run.end == RunEnd::Quiescent && !app_pending && run.panic.is_none() && !faulty && !conn_err;
